@@ -50,14 +50,24 @@ def pp_case(draw, tier="quick"):
     m = max(1, n)
     return {"d": d, "n": n, "p": [[draw(C.ints(9)) for _ in range(d)] for _ in range(m)], "q": [[draw(C.ints(9)) for _ in range(d)] for _ in range(m)],
             "inf": draw(st.sampled_from([None, None, None, "p", "q", "both"])), "sp": draw(C.scale()), "sq": draw(C.scale()), "bcast": draw(st.booleans()),
-            "same": draw(st.integers(0, 5)) == 0}
+            "same": draw(st.integers(0, 5)) == 0, "den": [draw(st.sampled_from([1, 1, 2, 4])) for _ in range(2)], "intdtype": [draw(st.booleans()) for _ in range(2)]}
 
 
 def run_pp(c):
     d, n = c["d"], c["n"]
     sp, sq = C.scale_value(c["sp"]), C.scale_value(c["sq"])
-    p = np.array([v + [1] for v in c["p"]], dtype=float)
-    q = np.array([v + [1] for v in c["q"]], dtype=float)
+    den = c.get("den", [1, 1])
+    if len(den) != 2 or any(x not in (1, 2, 4) for x in den):
+        raise Skip("malformed")
+    # coordinates k/den (exactly representable); an argument with integer coordinates may be given as an integer-typed array with
+    # last coordinate 1 (what Point(1, 2, 3) produces): mixed dtypes of the two arguments are part of the input space
+    p = np.array([[x / den[0] for x in v] + [1] for v in c["p"]], dtype=float)
+    q = np.array([[x / den[1] for x in v] + [1] for v in c["q"]], dtype=float)
+    idt = [bool(c.get("intdtype", [False, False])[k]) and den[k] == 1 and not c["inf"] and not c["same"] for k in range(2)]
+    if idt[0]:
+        sp = 1
+    if idt[1]:
+        sq = 1
     if c["same"]:
         q = p.copy()
     if c["inf"] in ("p", "both"):
@@ -68,13 +78,14 @@ def run_pp(c):
         raise Skip("zero vector")
     if c["inf"] == "both":
         raise Skip("two points at infinity: not specified")
+    ai = lambda a, k: a.astype(np.int64) if idt[k] else a  # noqa: E731
     if n:
-        A = PointCollection(p * sp)
-        B = Point(q[0] * sq) if c["bcast"] else PointCollection(q * sq)
+        A = PointCollection(ai(p * sp, 0))
+        B = Point(ai(q[0] * sq, 1)) if c["bcast"] else PointCollection(ai(q * sq, 1))
         if c["bcast"]:
             q = np.repeat(q[:1], len(p), axis=0)
     else:
-        A, B = Point(p[0] * sp), Point(q[0] * sq)
+        A, B = Point(ai(p[0] * sp, 0)), Point(ai(q[0] * sq, 1))
     site = f"dist:pp{d}:{'coll' if n else 'single'}"
     r1, f = call(site, dist, A, B)
     r2, g = call(site, dist, B, A)
@@ -457,8 +468,8 @@ def sub_nontrivial(c):
 
 
 LAWS = [
-    Law("dist_point_point", lambda tier: pp_case(tier), run_pp, lambda c: all(any(p) for p in c["p"]), lambda c: [f"d{c['d']}", "coll" if c["n"] else "single", f"inf={c['inf']}"],
-        {"quick": 1200, "thorough": 30000}, "Euclidean point distance, symmetry, zero iff equal, inf for one infinite point", shard=400),
+    Law("dist_point_point", lambda tier: pp_case(tier), run_pp, lambda c: all(any(p) for p in c["p"]), lambda c: [f"d{c['d']}", "coll" if c["n"] else "single", f"inf={c['inf']}"] + (["int-array-vs-fractional-float"] if not c["inf"] and not c["same"] and any(c.get("intdtype", [0, 0])[k] and c.get("den", [1, 1])[k] == 1 and c.get("den", [1, 1])[1 - k] > 1 for k in range(2)) else []),
+        {"quick": 1200, "thorough": 30000}, "Euclidean point distance, symmetry, zero iff equal, inf for one infinite point; coordinates k/4, integer-typed vs float arrays", shard=400, mandatory=("int-array-vs-fractional-float",)),
     Law("dist_subspace", lambda tier: sub_case(tier), run_sub, sub_nontrivial, lambda c: [c["cfg"], "incident" if c["on"] else "generic"], {"quick": 2000, "thorough": 40000},
         "point-line/plane, plane-parallel line/plane, both orders, incident pairs, equal coordinate vectors of different kinds", shard=400),
     Law("dist_polytope", lambda tier: poly_case(tier), run_poly, lambda c: True, lambda c: [c["cfg"]], {"quick": 700, "thorough": 12000},
